@@ -263,6 +263,12 @@ class Poly:
                 if ca == 1:
                     return o if b is o.t else self
                 return Poly({m: c * ca for m, c in b.items()})
+        if len(a) > 2 and len(b) > 2 and G.by_pow and not G.rewrites:
+            sc = _atom_shortcut(a, b)
+            if sc is None:
+                sc = _atom_shortcut(b, a)
+            if sc is not None:
+                return sc
         r = {}
         for ma, ca in a.items():
             for mb, cb in b.items():
@@ -417,6 +423,46 @@ class Poly:
 
 
 ORDER_ORACLE = [None]
+AUTO_CANCEL = [True]
+
+
+def _atom_shortcut(a, b):
+    """a * b where a == c * B for the base B of a pow atom g and every term of b carries g**(-k), k >= 1:
+    the product is c * (b with the exponent of g raised by one) -- J * (adj(F) / J) stays small"""
+    mb0 = next(iter(b))
+    cand = [g for g, e in mb0 if g > 0 and isinstance(e, int) and e < 0 and G.info[g]["kind"] == "pow"]
+    if not cand:
+        return None
+    for g in cand:
+        B = G.info[g]["arg"].t
+        if len(B) != len(a):
+            continue
+        # a == c * B ?
+        m0 = next(iter(B))
+        ca = a.get(m0)
+        if ca is None:
+            continue
+        c = ca / B[m0]
+        if any(a.get(m) != c * v for m, v in B.items()):
+            continue
+        out = {}
+        for m, v in b.items():
+            nm = []
+            hit = False
+            for gg, e in m:
+                if gg == g:
+                    if not (isinstance(e, int) and e < 0):
+                        return None
+                    hit = True
+                    if e + 1 != 0:
+                        nm.append((gg, e + 1))
+                else:
+                    nm.append((gg, e))
+            if not hit:
+                return None
+            out[tuple(nm)] = v * c
+        return Poly(out)
+    return None
 
 
 def set_rewrite(gen, n, replacement):
@@ -578,6 +624,10 @@ def const_pow(c, e):
     if e.denominator == 1:
         return Poly.const(c ** e.numerator)
     if c < 0:
+        if e.denominator % 2 == 1:
+            # real odd root: (-|c|)**(p/q) = (-1)**p * |c|**(p/q)  (consistent with (ab)**(1/q) = a**(1/q) b**(1/q) for odd q)
+            r = const_pow(-c, e)
+            return -r if e.numerator % 2 else r
         raise Undecided("fractional power of a negative constant %s**%s" % (c, e))
     if c == 0:
         if e > 0:
@@ -1076,6 +1126,108 @@ def expand_pows(p):
                 r = r + Poly({mm: c}) * power(G.info[g]["arg"], ip)
                 changed = True
         p = r + Poly({m: c for m, c in acc.items() if c})
+    return p
+
+
+def divide_exact(N, B):
+    """N / B if B divides N exactly (multivariate polynomial division, lexicographic order), else None"""
+    N, B = P(N), P(B)
+    if not B.t:
+        return None
+    if not N.t:
+        return ZERO
+    gens = sorted(N.gens() | B.gens())
+    pos = {g: i for i, g in enumerate(gens)}
+    ng = len(gens)
+
+    def vec(m):
+        v = [0] * ng
+        for g, e in m:
+            v[pos[g]] = e
+        return tuple(v)
+
+    Bv = {vec(m): c for m, c in B.t.items()}
+    Nv = {vec(m): c for m, c in N.t.items()}
+    lb = max(Bv)
+    cb = Bv[lb]
+    brest = [(v, c) for v, c in Bv.items() if v != lb]
+    Q = {}
+    guard = 0
+    while Nv:
+        guard += 1
+        if guard > 200000:
+            return None
+        ln = max(Nv)
+        qv = tuple(a - b for a, b in zip(ln, lb))
+        # divisibility: exponents of the quotient must not "go below" what N offers (no sign flips for plain division)
+        if any((b > 0 and a < b) or (b < 0 and a > b) for a, b in zip(ln, lb)):
+            return None
+        qc = Nv.pop(ln) / cb
+        Q[qv] = qc
+        for bv, bcf in brest:
+            k = tuple(a + b for a, b in zip(qv, bv))
+            nv = Nv.get(k, F0) - qc * bcf
+            if nv:
+                Nv[k] = nv
+            else:
+                Nv.pop(k, None)
+    out = {}
+    for v, c in Q.items():
+        m = tuple((gens[i], e) for i, e in enumerate(v) if e != 0)
+        out[m] = c
+    return Poly(out)
+
+
+def cancel(p):
+    """cancel inverse pow atoms against numerators divisible by their base (J * (adj / J) -> adj)"""
+    p = P(p)
+    for g in sorted(_pow_gens(p), reverse=True):
+        B = G.info[g]["arg"]
+        groups = {}
+        for m, c in p.t.items():
+            e = 0
+            rest = m
+            for i, (gg, ee) in enumerate(m):
+                if gg == g:
+                    e = ee
+                    rest = m[:i] + m[i + 1:]
+                    break
+            groups.setdefault(e, {})[rest] = c
+        neg = sorted(e for e in groups if isinstance(e, int) and e < 0)
+        changed = False
+        for e in neg:
+            Nn = Poly(groups.get(e, {}))
+            if not Nn.t:
+                continue
+            q = divide_exact(Nn, B)
+            if q is None:
+                continue
+            changed = True
+            tgt = groups.setdefault(e + 1, {})
+            for m, c in q.t.items():
+                v = tgt.get(m, F0) + c
+                if v:
+                    tgt[m] = v
+                else:
+                    tgt.pop(m, None)
+            groups[e] = {}
+            if e + 1 < 0 and (e + 1) not in neg:
+                neg.append(e + 1)
+                neg.sort()
+        if changed:
+            out = {}
+            for e, d in groups.items():
+                for rest, c in d.items():
+                    if e == 0:
+                        m = rest
+                    else:
+                        m = tuple(sorted(rest + ((g, e),)))
+                    v = out.get(m, F0) + c
+                    if v:
+                        out[m] = v
+                    else:
+                        out.pop(m, None)
+            p = Poly(out)
     return p
 
 
